@@ -11,18 +11,21 @@ import (
 	"os"
 	"path/filepath"
 	"strings"
+	"sync"
 	"testing"
 
 	admissionv1 "k8s.io/api/admission/v1"
 	corev1 "k8s.io/api/core/v1"
 	metav1 "k8s.io/apimachinery/pkg/apis/meta/v1"
 	"k8s.io/apimachinery/pkg/runtime"
+	"k8s.io/apimachinery/pkg/util/wait"
 	k8syaml "k8s.io/apimachinery/pkg/util/yaml"
 	"k8s.io/utils/ptr"
 	"sigs.k8s.io/controller-runtime/pkg/client/fake"
 	"sigs.k8s.io/controller-runtime/pkg/webhook/admission"
 
 	"github.com/AliyunContainerService/terway/pkg/apis/network.alibabacloud.com/v1beta1"
+	"github.com/AliyunContainerService/terway/pkg/backoff"
 	"github.com/AliyunContainerService/terway/types"
 	"github.com/AliyunContainerService/terway/types/controlplane"
 	g "github.com/AliyunContainerService/terway/zz_verif/c15gen"
@@ -411,7 +414,10 @@ const vfC15CompletePod = `{"kind":"Pod","apiVersion":"v1","metadata":{"name":"we
 
 func vfC15RunCtrl(c g.Sink, s vfC15CtrlScenario) {
 	c.Label("kind:" + s.Kind)
+	_ = vfC15DefaultBackoffs()
 	controlplane.SetConfig(nil) // ParseAndValidate publishes the accepted configuration in a package variable
+	// ... and applies backoffOverride to pkg/backoff's process-wide table: put the defaults back
+	defer backoff.OverrideBackoff(vfC15DefaultBackoffs())
 
 	// ParseAndValidate asks the ECS metadata service for the region when regionID is empty
 	// (HTTP with retries: minutes in a sandbox without network). Such documents are not
@@ -476,4 +482,21 @@ func vfC15RunCtrl(c g.Sink, s vfC15CtrlScenario) {
 
 func TestVerifC15ControlplaneConfig(t *testing.T) {
 	vt.Run(t, vfC15GenCtrl, g.NoPanic(g.Adapt(vfC15RunCtrl)))
+}
+
+var (
+	vfC15BackoffOnce     sync.Once
+	vfC15BackoffDefaults map[string]wait.Backoff
+)
+
+// vfC15DefaultBackoffs: the table as it was before the first case touched it.
+func vfC15DefaultBackoffs() map[string]wait.Backoff {
+	vfC15BackoffOnce.Do(func() {
+		vfC15BackoffDefaults = map[string]wait.Backoff{}
+		for _, k := range []string{backoff.DefaultKey, backoff.ENICreate, backoff.ENIOps, backoff.ENIRelease, backoff.ENIIPOps, backoff.WaitENIStatus,
+			backoff.WaitPodENIStatus, backoff.MetaAssignPrivateIP, backoff.MetaUnAssignPrivateIP, backoff.WaitStsTokenReady, backoff.WaitNodeStatus} {
+			vfC15BackoffDefaults[k] = backoff.Backoff(k)
+		}
+	})
+	return vfC15BackoffDefaults
 }
